@@ -10,6 +10,12 @@ import Swat4.Lemmas.ReporterRefine
 namespace Swat4.Rep
 open Swat4 Swat4.Heartbeat Swat4.ReporterSpec Std
 
+/-- the bytes of an ASCII string literal (for writing keys, values and example datagrams readably) -/
+def ascii (x : String) : Bytes := x.toList.map fun c => UInt8.ofNat c.toNat
+
+/-- `name 00 value 00` -/
+def kv (k v : String) : Bytes := ascii k ++ 0 :: (ascii v ++ [0])
+
 /-- `mapM` in `Option`, position by position -/
 theorem mapM_option_getElem? {α β : Type} (g : α → Option β) :
     ∀ (l : List α) (r : List β), l.mapM g = some r → ∀ (n : Nat), r[n]? = (l[n]?).bind g := by
